@@ -17,8 +17,8 @@ ASSUMPTIONS = ["reference models vf/refs/models.py:root_verdict, reference schem
 
 
 def plan(tier, seed):
-    n = 700 if tier == "quick" else 16000
-    shards = 10 if tier == "quick" else 16
+    n = 3000 if tier == "quick" else 80000
+    shards = 16 if tier == "quick" else 32
     return [{"kind": "pairs", "count": n // shards} for _ in range(shards)]
 
 
